@@ -1361,4 +1361,159 @@ theorem goRawBytesRaw_eq (P : Prims α) (C : Codec α) (g : α → α) (R : Rel 
   · simp only [goRawBytesRaw, Codec.mkPt, h0, if_false, Codec.encRaw, hvx, hvy, hputx, hputy, buildFrame1, writeComps,
       List.append_nil, raw_put _ _ _ (putBE_length _ _) (putBE_length _ _), hL, Layout.code, Nat.zero_mul, Nat.zero_add]
 
+/-! ## G2 over Fp² (two components per coordinate) -/
+
+/-- the frame of a codec with `c ≥ 1` components, by the first byte -/
+theorem parseFrameC (C : Codec α) (hc : 1 ≤ C.c) (hfb : 1 ≤ C.fb) (hk : C.L.k ≤ 8) (b0 : UInt8) (tl : List UInt8)
+    (hl : ¬ (b0 :: tl).length < C.nbC) :
+    C.parseFrame (b0 :: tl) =
+      (let xs := ((b0.toNat % 2 ^ (8 - C.L.k)) * 256 ^ (C.fb - 1) + beToNat (tl.take (C.fb - 1))) ::
+          readComps C.fb (C.c - 1) ((b0 :: tl).drop C.fb)
+       let ys := readComps C.fb C.c ((b0 :: tl).drop C.nbC)
+       match C.L.classify (b0.toNat / 2 ^ (8 - C.L.k)) with
+       | .bad => .error .flag
+       | .unc => if (b0 :: tl).length < 2 * C.nbC then .error .short else .ok (.unc, xs, ys, 2 * C.nbC)
+       | .uncInf => if (b0 :: tl).length < 2 * C.nbC then .error .short else .ok (.uncInf, xs, ys, 2 * C.nbC)
+       | fl => .ok (fl, xs, [], C.nbC)) := by
+  obtain ⟨m, hm⟩ : ∃ m, C.c = m + 1 := ⟨C.c - 1, by omega⟩
+  have hlen : C.fb ≤ (b0 :: tl).length := by
+    have : C.fb ≤ C.nbC := by unfold Codec.nbC; rw [hm]; nlinarith
+    omega
+  obtain ⟨k, hk'⟩ : ∃ k, C.fb = k + 1 := ⟨C.fb - 1, by omega⟩
+  have hlt : (tl.take k).length = k := by simp at hlen ⊢; omega
+  have hr : beToNat (tl.take k) < 256 ^ k := by have := beToNat_lt (tl.take k); rwa [hlt] at this
+  have hrc : readComps C.fb C.c (b0 :: tl) = beToNat (b0 :: tl.take (C.fb - 1)) :: readComps C.fb (C.c - 1) ((b0 :: tl).drop C.fb) := by
+    rw [hm, hk']; simp [readComps]
+  have hsh := shift_split C hfb hk
+  unfold Codec.parseFrame
+  rw [if_neg hl, hrc]
+  simp only
+  rw [hsh, hk', Nat.add_sub_cancel, beToNat_cons, hlt, frame_div _ _ _ _ hr, frame_mod _ _ _ _ hr]
+  cases C.L.classify (b0.toNat / 2 ^ (8 - C.L.k)) <;> rfl
+
+/-- assumed behaviour of the primitives of a G2 text over Fp²: `emb` embeds a canonical base-field value, writing A1 then A0 yields the
+coordinate with those components (marshal order A1 | A0), `Sqrt` is only called when `Legendre ≠ -1` -/
+structure Rel2 {β : Type} (P : Prims α) (Q : Comps α β) (C : Codec α) (g : α → α) (emb : Nat → β) : Prop where
+  c2 : C.c = 2
+  fb_pos : 1 ≤ C.fb
+  zero : P.zero = C.zero
+  sbc : ∀ bs : List UInt8, bs.length = C.fb → Q.sbc bs = if beToNat bs < C.p then some (emb (beToNat bs)) else none
+  set2 : ∀ z a1 a0, Q.setComp "A0" (Q.setComp "A1" z (emb a1)) (emb a0) = C.ofComps [a1, a0]
+  rhs : ∀ x, g x = C.rhs x
+  sqrt : ∀ v, C.sqrt v = if Q.legendre v = -1 then none else some (Q.sqrtU v)
+  lex : ∀ x, P.lex x = C.lex x
+  neg : ∀ x, P.neg x = C.neg x
+  sub : ∀ x y, P.isInSubGroup x y = C.goInSub x y
+
+theorem goSlice_23 (buf : List UInt8) (fb : Nat) : goSlice buf (fb * 2) (fb * 3) = (buf.drop (fb * 2)).take fb := by
+  simp [goSlice]; omega
+theorem goSlice_34 (buf : List UInt8) (fb : Nat) : goSlice buf (fb * 3) (fb * 4) = (buf.drop (fb * 3)).take fb := by
+  simp [goSlice]; omega
+
+theorem goSetBytes2E2_refines {β : Type} (P : Prims α) (Q : Comps α β) (C : Codec α) (g : α → α) (emb : Nat → β)
+    (R : Rel2 P Q C g emb) (hL : C.L = .two) (pX pY : α) (buf : List UInt8) (sub : Bool) :
+    C.absR (goSetBytes2E2 C.fb g P Q pX pY buf sub) = some (C.goDecode sub buf) := by
+  have hc := R.c2
+  have hfb := R.fb_pos
+  have hnb : C.nbC = 2 * C.fb := by simp [Codec.nbC, hc]
+  by_cases hlen : buf.length < 2 * C.fb
+  · simp [goSetBytes2E2, Codec.goDecode, Codec.parseFrame, hnb, hlen, Codec.absR, Codec.errClass]
+  · obtain ⟨b0, tl, rfl⟩ : ∃ b0 tl, buf = b0 :: tl := by
+      cases buf with
+      | nil => simp at hlen; omega
+      | cons b t => exact ⟨b, t, rfl⟩
+    have hk : C.L.k ≤ 8 := by rw [hL]; decide
+    have hk2 : 8 - C.L.k = 6 := by rw [hL]; rfl
+    have hpf := parseFrameC C (by omega) hfb hk b0 tl (by rw [hnb]; exact hlen)
+    rw [hk2, show (2 : Nat) ^ 6 = 64 by norm_num, hnb, hc] at hpf
+    have hlt : (tl.take (C.fb - 1)).length = C.fb - 1 := by simp at hlen ⊢; omega
+    have hx : b0.toNat % 64 * 256 ^ (C.fb - 1) + beToNat (tl.take (C.fb - 1))
+        = beToNat ((b0 &&& ~~~(192 : UInt8)) :: tl.take (C.fb - 1)) := by
+      rw [beToNat_cons, byte2_low, hlt]
+    rw [hx] at hpf
+    simp only [readComps, Nat.add_one_sub_one] at hpf
+    have e3 : List.drop C.fb (List.drop (2 * C.fb) (b0 :: tl)) = List.drop (C.fb * 3) (b0 :: tl) := by
+      rw [List.drop_drop]; congr 1; omega
+    rw [e3, show 2 * (2 * C.fb) = 4 * C.fb by omega, show 2 * C.fb = C.fb * 2 by omega] at hpf
+    unfold Codec.goDecode
+    rw [hpf]
+    have h0 : 0 < tl.length + 1 := by omega
+    have h1 : C.fb ≤ tl.length + 1 := by simp at hlen; omega
+    have h1' : C.fb ≤ (b0 :: tl).length := by simpa using h1
+    have h2 : C.fb * 2 ≤ tl.length + 1 := by simp at hlen; omega
+    have h2' : 2 * C.fb ≤ tl.length + 1 := by omega
+    have h2n : ¬ tl.length + 1 < 2 * C.fb := by omega
+    have hS0 : ∀ x : UInt8, Q.sbc (x :: tl.take (C.fb - 1)) =
+        if beToNat (x :: tl.take (C.fb - 1)) < C.p then some (emb (beToNat (x :: tl.take (C.fb - 1)))) else none :=
+      fun x => R.sbc _ (by simp at hlen ⊢; omega)
+    have hXs : ∀ x : UInt8, goSlice (x :: tl.take (C.fb - 1)) 0 C.fb = x :: tl.take (C.fb - 1) := by
+      intro x; rw [goSlice_head _ _ _ hfb, List.take_take, Nat.min_self]
+    have hS1 := R.sbc (((b0 :: tl).drop C.fb).take C.fb) (by simp; omega)
+    rcases byte2_cases b0 with ⟨hm, hd⟩ | ⟨hm, hd⟩ | ⟨hm, hd⟩ | ⟨hm, hd⟩
+    · -- uncompressed
+      rw [byte2_unc b0 hm]
+      by_cases hlen2 : tl.length + 1 < 4 * C.fb
+      · simp [goSetBytes2E2, hL, hd, hm, Layout.classify, h0, h1, h2, h2', h2n, hlen2, Codec.absR, Codec.errClass]
+      · have h3 : C.fb * 3 ≤ tl.length + 1 := by omega
+        have h4 : C.fb * 4 ≤ tl.length + 1 := by omega
+        have hS2 := R.sbc (((b0 :: tl).drop (C.fb * 2)).take C.fb) (by simp; omega)
+        have hS3 := R.sbc (((b0 :: tl).drop (C.fb * 3)).take C.fb) (by simp; omega)
+        simp only [goSetBytes2E2, List.getD_cons_zero, hm, goSlice_second, goSlice_23, goSlice_34, goSlice_head _ _ _ hfb, hS0]
+        generalize ((b0 :: tl).drop C.fb).take C.fb = W1 at hS1 ⊢
+        generalize ((b0 :: tl).drop (C.fb * 2)).take C.fb = W2 at hS2 ⊢
+        generalize ((b0 :: tl).drop (C.fb * 3)).take C.fb = W3 at hS3 ⊢
+        simp [hL, hd, Layout.classify, h0, h1, h2, h2', h2n, h3, h4, hlen2, Codec.phase1, allLt]
+        generalize beToNat (b0 :: List.take (C.fb - 1) tl) = v0
+        by_cases hv0 : v0 < C.p <;> simp [hv0, Codec.absR, Codec.errClass]
+        rw [hS1]
+        generalize beToNat W1 = v1
+        by_cases hv1 : v1 < C.p <;> simp [hv1, Codec.absR, Codec.errClass]
+        rw [hS2]
+        generalize beToNat W2 = v2
+        by_cases hv2 : v2 < C.p <;> simp [hv2, Codec.absR, Codec.errClass]
+        rw [hS3]
+        generalize beToNat W3 = v3
+        by_cases hv3 : v3 < C.p <;> simp [hv3, Codec.absR, Codec.errClass, Codec.phase2Go, R.sub, R.set2]
+        generalize C.ofComps [v0, v1] = x
+        generalize C.ofComps [v2, v3] = y
+        cases hs : C.goInSub x y <;> cases sub <;> simp [Codec.absR, Codec.errClass, hs]
+    · -- compressed infinity
+      have hz := uncInf_zero (b0 &&& ~~~(192 : UInt8)) b0 tl C.fb hfb
+      simp [goSetBytes2E2, hL, hd, hm, Layout.classify, h0, h1, h2, h2', h2n, Codec.phase1, allZero, goSlice_tail, goIsZeroed_eq]
+      rw [if_congr hz rfl rfl]
+      split <;> simp [Codec.absR, Codec.errClass, Codec.phase2Go, Codec.mkPt, R.zero]
+      omega
+    · simp only [goSetBytes2E2, hm, bufX_copy _ _ _ hfb h1', List.set_cons_zero, List.getD_cons_zero, hXs, hS0, goSlice_second]
+      generalize ((b0 :: tl).drop C.fb).take C.fb = W1 at hS1 ⊢
+      simp [hL, hd, Layout.classify, h0, h1, h2, h2', h2n, Codec.phase1, allLt]
+      generalize beToNat ((b0 &&& ~~~192) :: List.take (C.fb - 1) tl) = v0
+      by_cases hv0 : v0 < C.p <;> simp [hv0, Codec.absR, Codec.errClass]
+      rw [hS1]
+      generalize beToNat W1 = v1
+      by_cases hv1 : v1 < C.p <;> simp [hv1, Codec.absR, Codec.errClass, Codec.phase2Go, R.sub, R.set2, R.sqrt, R.rhs, R.lex, R.neg]
+      generalize C.ofComps [v0, v1] = x
+      by_cases hleg : Q.legendre (C.rhs x) = -1
+      · simp [hleg, Codec.absR, Codec.errClass]
+      · simp only [hleg, if_false]
+        generalize Q.sqrtU (C.rhs x) = y0
+        cases hs1 : C.goInSub x y0 <;> cases hs2 : C.goInSub x (C.neg y0) <;> cases hl : C.lex y0 <;> cases sub <;>
+          simp [Codec.absR, Codec.errClass, hs1, hs2, hl]
+        all_goals omega
+    · simp only [goSetBytes2E2, hm, bufX_copy _ _ _ hfb h1', List.set_cons_zero, List.getD_cons_zero, hXs, hS0, goSlice_second]
+      generalize ((b0 :: tl).drop C.fb).take C.fb = W1 at hS1 ⊢
+      simp [hL, hd, Layout.classify, h0, h1, h2, h2', h2n, Codec.phase1, allLt]
+      generalize beToNat ((b0 &&& ~~~192) :: List.take (C.fb - 1) tl) = v0
+      by_cases hv0 : v0 < C.p <;> simp [hv0, Codec.absR, Codec.errClass]
+      rw [hS1]
+      generalize beToNat W1 = v1
+      by_cases hv1 : v1 < C.p <;> simp [hv1, Codec.absR, Codec.errClass, Codec.phase2Go, R.sub, R.set2, R.sqrt, R.rhs, R.lex, R.neg]
+      generalize C.ofComps [v0, v1] = x
+      by_cases hleg : Q.legendre (C.rhs x) = -1
+      · simp [hleg, Codec.absR, Codec.errClass]
+      · simp only [hleg, if_false]
+        generalize Q.sqrtU (C.rhs x) = y0
+        cases hs1 : C.goInSub x y0 <;> cases hs2 : C.goInSub x (C.neg y0) <;> cases hl : C.lex y0 <;> cases sub <;>
+          simp [Codec.absR, Codec.errClass, hs1, hs2, hl]
+        all_goals omega
+
 end GV.PointCodec
